@@ -62,12 +62,13 @@ class TlcResult:
 def split_tuples(text, head):
     """extract every <<"head", ...>> printed with PrintT, tolerant of interleaved worker output"""
     out = []
-    key = '<<"%s"' % head
+    pat = re.compile(r'<<\s*"%s"' % re.escape(head))
     i = 0
     while True:
-        i = text.find(key, i)
-        if i < 0:
+        m0 = pat.search(text, i)
+        if not m0:
             break
+        i = m0.start()
         depth = 0
         j = i
         instr = False
@@ -96,10 +97,11 @@ def split_tuples(text, head):
 
 def parse_verdict(tup):
     """<<"VERDICT", id, "clause", line, n>> -> (id, clause, line, n)"""
-    m = re.match(r'<<"VERDICT",\s*(-?\d+),\s*"([^"]*)",\s*(-?\d+)(?:,\s*(-?\d+))?', tup.replace("\n", " "))
+    m = re.match(r'<<\s*"VERDICT",\s*(-?\d+),\s*"([^"]*)",\s*(-?\d+)(?:,\s*(-?\d+))?(?:,\s*"([^"]*)")?\s*', tup.replace("\n", " "))
     if not m:
         raise Machinery("unparsable verdict %r" % tup[:200])
-    return int(m.group(1)), m.group(2), int(m.group(3)), int(m.group(4) or 0)
+    also = m.group(5) if m.group(5) and m.group(5) != "ok" else None
+    return int(m.group(1)), m.group(2), int(m.group(3)), int(m.group(4) or 0), also
 
 
 def run_tlc(module, cfg, workdir, env=None, workers=None, timeout=3000, extra=(), simulate=None, heap="8g", dfs=False):
@@ -177,8 +179,8 @@ def validate_traces(module, cfg, traces, workdir, name, workers=None, chunk=400,
         distinct += r.distinct
         got = {}
         for t in split_tuples(r.stdout, "VERDICT"):
-            i, clause, line, n = parse_verdict(t)
-            got[i] = (clause, line, n)
+            i, clause, line, n, also = parse_verdict(t)
+            got[i] = (clause, line, n) if also is None else (clause, line, n, also)
         for tr in part:
             if tr["id"] not in got:
                 raise Machinery("no verdict for trace %s in %s" % (tr["id"], path))
